@@ -80,6 +80,11 @@ def check(repo, tier="quick"):
                 return st.add("depth_tested")
             return st
         if isinstance(node, ast.Continue):
+            q = getattr(node, "_parent", None)
+            while q is not None and not isinstance(q, (ast.For, ast.While)):
+                q = getattr(q, "_parent", None)
+            if q is not None and q not in body.body:
+                return st  # continues an inner loop, not the search loop
             kind = "after-consume" if "consume_enqueued" in st.must and "insert_enqueued" not in st.may and "depth_tested" not in st.may else "prune"
             conts.append((kind, node, st))
             return st
@@ -99,6 +104,41 @@ def check(repo, tier="quick"):
     res.check("consume" in kinds and "insert" in kinds and "other" not in kinds, "C19.b", "successors:both-families-exist", where, "append() calls found: %s" % kinds, by="consume and insert successors are both generated")
     skipping = list({id(c[1]): c for c in conts if c[0] == "after-consume"}.values())
     res.check(not skipping, "C19.b", "make_matching_sequence:continue-after-consume", where, "after enqueueing the consume successor the iteration ends with `continue`, so the insert successors of the same node are never enqueued: the search is greedy, not breadth-first (not shortest, not complete)", by="the insert family is reached after the consume family")
+    # closed list of pruning conditions: depth limit reached, no candidate symbol
+    # (and the continue that follows the consume branch, judged above)
+    cand_names = set()
+    for n in ast.walk(loop):
+        if isinstance(n, ast.For) and any(isinstance(c, ast.Call) and (classify_append(c) or (None,))[0] == "insert" for c in ast.walk(n)):
+            work = [x.id for x in ast.walk(n.iter) if isinstance(x, ast.Name)]
+            while work:
+                v = work.pop()
+                if v in cand_names or v in (so_far, remaining, matchers, depth):
+                    continue
+                cand_names.add(v)
+                for a in ast.walk(loop):
+                    if isinstance(a, ast.Assign) and any(isinstance(t, ast.Name) and t.id == v for t in a.targets):
+                        work.extend(x.id for x in ast.walk(a.value) if isinstance(x, ast.Name) and not isinstance(getattr(x, "_parent", None), ast.Lambda))
+    fn_params = set(a.arg for a in fn.args.args) | {"symbol_priority", "depth_limit", "matcher", "symbols"}
+    consume_conts = set(id(c[1]) for c in conts if c[0] == "after-consume")
+    prunes = list({id(c[1]): c for c in conts if c[0] == "prune" and id(c[1]) not in consume_conts}.values())
+    n_sanctioned = 0
+    for kind, node, st in prunes:
+        p = getattr(node, "_parent", None)
+        guard = norm(p.test) if isinstance(p, ast.If) and node in p.body else "<unconditional>"
+        ok_guard = False
+        if isinstance(p, ast.If) and node in p.body and isinstance(p.test, ast.Compare) and len(p.test.ops) == 1:
+            l, op, r = p.test.left, p.test.ops[0], p.test.comparators[0]
+            if dotted(l) == depth and isinstance(r, ast.Constant) and ((isinstance(op, ast.LtE) and r.value == 0) or (isinstance(op, ast.Lt) and r.value == 1) or (isinstance(op, ast.Eq) and r.value == 0)):
+                ok_guard = True
+            if isinstance(l, ast.Call) and dotted(l.func) == "len" and l.args and isinstance(l.args[0], ast.Name) and l.args[0].id in cand_names and isinstance(op, ast.Eq) and isinstance(r, ast.Constant) and r.value == 0:
+                ok_guard = True
+        if isinstance(p, ast.If) and node in p.body and isinstance(p.test, ast.UnaryOp) and isinstance(p.test.op, ast.Not) and isinstance(p.test.operand, ast.Name) and p.test.operand.id in cand_names:
+            ok_guard = True
+        if ok_guard:
+            n_sanctioned += 1
+            res.ok("C19.b", "prune:%s" % guard, where, by="sanctioned pruning condition (depth limit / no candidate symbol)")
+        else:
+            res.bad("C19.b", "prune:%s" % guard, where, "a dequeued search node is abandoned under `%s`, which is neither the depth limit nor an empty candidate set: successors that may lead to the only (or the shortest) matching sequence are never explored" % guard)
     # the insert family covers every candidate: the append sits in a for over the candidate collection
     ins_ok = False
     for n in ast.walk(loop):
@@ -138,6 +178,24 @@ def check(repo, tier="quick"):
                 if isinstance(c, ast.Call) and isinstance(c.func, ast.Attribute) and c.func.attr == "match_symbol":
                     advanced_uncopied.append(short(c))
     res.check(copies >= 2 and not advanced_uncopied, "C19.c", "matchers:copied-before-advance", where, "matchers of the dequeued node are advanced in place: %s" % advanced_uncopied if advanced_uncopied else "deepcopy(matchers) found %d time(s)" % copies, by="deepcopy before match_symbol on both branches")
+    # the root node: empty prefix, all required symbols, one *fresh, distinct* matcher per pattern, full depth
+    root_ok = False
+    fresh_ok = False
+    detail = "deque([...]) initialiser not recognised"
+    for s_ in fn.body:
+        if isinstance(s_, ast.Assign) and isinstance(s_.value, ast.Call) and dotted(s_.value.func) == "deque" and s_.value.args and isinstance(s_.value.args[0], (ast.List, ast.Tuple)) and len(s_.value.args[0].elts) == 1 and isinstance(s_.value.args[0].elts[0], ast.Tuple) and len(s_.value.args[0].elts[0].elts) == 4:
+            a, b, c, d = s_.value.args[0].elts[0].elts
+            root_ok = isinstance(a, ast.List) and not a.elts and isinstance(b, ast.Name) and b.id == fn.args.args[0].arg and dotted(d) == "depth_limit"
+            detail = "root node is %s" % short(s_.value.args[0].elts[0], 100)
+            src = c
+            if isinstance(c, ast.Name):
+                defs = [x for x in fn.body if isinstance(x, ast.Assign) and dotted(x.targets[0]) == c.id]
+                src = defs[-1].value if len(defs) == 1 else None
+            if isinstance(src, ast.ListComp) and len(src.generators) == 1 and not src.generators[0].ifs and dotted(src.generators[0].iter) == (fn.args.vararg.arg if fn.args.vararg else None):
+                fresh_ok = _fresh_matcher(repo, m, src.elt)
+                if not fresh_ok:
+                    detail = "initial matchers are built by `%s`, which does not construct a new Matcher per pattern: equal patterns (or later calls) would share one matcher object, which deepcopy keeps aliased and match_symbol advances twice" % short(src.elt, 60)
+    res.check(root_ok and fresh_ok, "C19.c", "root:fresh-matcher-per-pattern", where, detail, by="([], initial_sequence, [Matcher(p) for p in patterns], depth_limit)")
     cons = [e for e in events if e[0] == "consume"]
     ok = bool(cons) and all(norm(e[1]) == "%s + [%s[0]]" % (so_far, remaining) for e in cons)
     res.check(ok, "C19.c", "consume:prefix-extended-by-required-symbol", where, "the consume successor must extend the prefix by remaining[0]", by="so_far + [remaining[0]]")
@@ -151,13 +209,29 @@ def check(repo, tier="quick"):
     res.check(any(isinstance(s, ast.Raise) and isinstance(s.exc, ast.Call) and dotted(s.exc.func) == "ImpossibleSequenceError" for s in fn.body[fn.body.index(loop) + 1 :]), "C19.c", "exhaustion:raises", where, "an exhausted search must raise ImpossibleSequenceError", by="raise after the loop")
     rule_e(repo, res)
     res.floor("C19.a", 1)
-    res.floor("C19.b", 3)
-    res.floor("C19.c", 4)
+    res.floor("C19.b", 5)
+    res.floor("C19.c", 5)
     res.floor("C19.d", 1)
     res.floor("C19.e", 3)
     res.assumptions = ["the matcher itself is C18's subject", "candidate-set computation (intersection over matchers) is not decided"]
     res.trusted = ["collections.deque FIFO semantics"]
     return res
+
+
+def _fresh_matcher(repo, m, e, depth=0):
+    """e evaluates to a newly constructed Matcher on every evaluation."""
+    if not isinstance(e, ast.Call) or depth > 2:
+        return False
+    tgt = repo.resolve_expr(m.name, e.func)
+    if tgt is None:
+        return False
+    if getattr(tgt, "kind", None) == "class":
+        return tgt.name == "Matcher" and tgt.mod.endswith("symbol_re")
+    if getattr(tgt, "kind", None) == "func":
+        tm, tf = repo.func("%s:%s" % (tgt.mod, tgt.name)) if False else (repo.mod(tgt.mod), tgt.node)
+        rets = [n for n in ast.walk(tf) if isinstance(n, ast.Return)]
+        return bool(rets) and all(r.value is not None and _fresh_matcher(repo, tm, r.value, depth + 1) for r in rets)
+    return False
 
 
 def rule_e(repo, res):
